@@ -5,6 +5,7 @@ import H2V.Lemmas.ConnCountsPBase
 -/
 namespace H2V.Lemmas.ConnCountsP
 open H2V H2V.Model H2V.Model.Conn
+variable {ρ : Bool}
 
 -- ===================================================================== store look-ups
 
@@ -24,22 +25,22 @@ theorem stream_of_get? {s : Streams} {k : Nat} {x : Stream} (h : s.store.get? k 
 
 -- ===================================================================== steps that leave store and queues alone
 
-theorem panic_ev (s : Streams) (m : String) : Ev s (s.panic m) := by
+theorem panic_ev (s : Streams) (m : String) : EvB ρ s (s.panic m) := by
   unfold Streams.panic
   split
   · exact .refl _
   · exact .free ⟨rfl, CStep.refl _, fun _ => rfl, fun _ => rfl, NextOK.refl _ _⟩
 
-theorem unsup_ev (s : Streams) (m : String) : Ev s (s.unsup m) := by
+theorem unsup_ev (s : Streams) (m : String) : EvB ρ s (s.unsup m) := by
   unfold Streams.unsup
   split
   · exact .refl _
   · exact .free ⟨rfl, CStep.refl _, fun _ => rfl, id, NextOK.refl _ _⟩
 
-theorem wake_ev (s : Streams) (t : List String) : Ev s (s.wake t) :=
+theorem wake_ev (s : Streams) (t : List String) : EvB ρ s (s.wake t) :=
   .free ⟨rfl, CStep.refl _, fun _ => rfl, id, NextOK.refl _ _⟩
 
-theorem notifyTask_ev (s : Streams) : Ev s s.notifyTask := by
+theorem notifyTask_ev (s : Streams) : EvB ρ s s.notifyTask := by
   unfold Streams.notifyTask
   split
   · exact .free ⟨rfl, CStep.refl _, fun q => by cases q <;> rfl, id, NextOK.refl _ _⟩
@@ -47,7 +48,7 @@ theorem notifyTask_ev (s : Streams) : Ev s s.notifyTask := by
 
 theorem modPrio_ev (s : Streams) (f : Prioritize → Prioritize)
     (h : ∀ p, (f p).pendingSend = p.pendingSend ∧ (f p).pendingCapacity = p.pendingCapacity ∧ (f p).pendingOpen = p.pendingOpen) :
-    Ev s (s.modPrio f) := by
+    EvB ρ s (s.modPrio f) := by
   refine .free ⟨rfl, CStep.refl _, ?_, id, NextOK.refl _ _⟩
   intro q
   cases q <;> simp [Streams.getQ, Streams.prio, Streams.recv, Streams.modPrio, h]
@@ -55,26 +56,26 @@ theorem modPrio_ev (s : Streams) (f : Prioritize → Prioritize)
 theorem modRecv_ev (s : Streams) (f : Recv → Recv)
     (h : ∀ p, (f p).pendingWindowUpdates = p.pendingWindowUpdates ∧ (f p).pendingAccept = p.pendingAccept ∧
       (f p).pendingResetExpired = p.pendingResetExpired) :
-    Ev s (s.modRecv f) := by
+    EvB ρ s (s.modRecv f) := by
   refine .free ⟨rfl, CStep.refl _, ?_, id, NextOK.refl _ _⟩
   intro q
   cases q <;> simp [Streams.getQ, Streams.prio, Streams.recv, Streams.modRecv, h]
 
 theorem modSend_ev (s : Streams) (f : Send → Send)
     (h : ∀ p, (f p).prioritize = p.prioritize) (hn : NextOK s.counts.isServer s.actions.send.nextStreamId (f s.actions.send).nextStreamId) :
-    Ev s (s.modSend f) := by
+    EvB ρ s (s.modSend f) := by
   refine .free ⟨rfl, CStep.refl _, ?_, id, hn⟩
   intro q
   cases q <;> simp [Streams.getQ, Streams.prio, Streams.recv, Streams.modSend, h]
 
-theorem setCounts_ev (s : Streams) (c : Counts) (h : CStep s.counts c) : Ev s { s with counts := c } :=
+theorem setCounts_ev (s : Streams) (c : Counts) (h : CStep s.counts c) : EvB ρ s { s with counts := c } :=
   .free ⟨rfl, h, fun q => by cases q <;> rfl, id, by rw [show s.counts.isServer = s.counts.isServer from rfl]; exact NextOK.refl _ _⟩
 
-theorem modCounts_ev (s : Streams) (f : Counts → Counts) (h : CStep s.counts (f s.counts)) : Ev s (s.modCounts f) :=
+theorem modCounts_ev (s : Streams) (f : Counts → Counts) (h : CStep s.counts (f s.counts)) : EvB ρ s (s.modCounts f) :=
   setCounts_ev s _ h
 
 theorem modCountsA_ev (s : Streams) (w : String) (f : Counts → Option Counts)
-    (h : ∀ c', f s.counts = some c' → CStep s.counts c') : Ev s (s.modCountsA w f) := by
+    (h : ∀ c', f s.counts = some c' → CStep s.counts c') : EvB ρ s (s.modCountsA w f) := by
   unfold Streams.modCountsA
   split
   · next c hc => exact setCounts_ev s c (h c hc)
@@ -85,7 +86,7 @@ theorem setMisc_ev (s : Streams) (a : Actions) (refs leaked : Nat) (wk : List St
     (ha : a.recv.pendingWindowUpdates = s.actions.recv.pendingWindowUpdates ∧ a.recv.pendingAccept = s.actions.recv.pendingAccept ∧
           a.recv.pendingResetExpired = s.actions.recv.pendingResetExpired ∧ a.send.prioritize = s.actions.send.prioritize ∧
           a.send.nextStreamId = s.actions.send.nextStreamId) :
-    Ev s { s with actions := a, refs := refs, recvBufferLeaked := leaked, wakes := wk, unsupported := un } := by
+    EvB ρ s { s with actions := a, refs := refs, recvBufferLeaked := leaked, wakes := wk, unsupported := un } := by
   refine .free ⟨rfl, CStep.refl _, ?_, id, ?_⟩
   · intro q
     cases q <;> simp [Streams.getQ, Streams.prio, Streams.recv, ha]
@@ -93,7 +94,7 @@ theorem setMisc_ev (s : Streams) (a : Actions) (refs leaked : Nat) (wk : List St
 
 -- ===================================================================== stream updates
 
-theorem setStream_ev (s : Streams) (k : Nat) (st' : Stream) (h : Same (s.stream k) st') : Ev s (s.setStream st') := by
+theorem setStream_ev (s : Streams) (k : Nat) (st' : Stream) (h : Same (s.stream k) st') : EvB ρ s (s.setStream st') := by
   refine .setStream st' ?_
   intro x hx
   have hk : st'.key = k := h.key.trans (stream_key s k)
@@ -101,7 +102,7 @@ theorem setStream_ev (s : Streams) (k : Nat) (st' : Stream) (h : Same (s.stream 
   rw [← stream_of_get? hx]; exact h
 
 theorem modStream_ev (s : Streams) (k : Nat) (f : Stream → Stream)
-    (h : ∀ st, s.store.get? k = some st → Same st (f st)) : Ev s (s.modStream k f) := by
+    (h : ∀ st, s.store.get? k = some st → Same st (f st)) : EvB ρ s (s.modStream k f) := by
   unfold Streams.modStream
   split
   · next st hst =>
@@ -110,7 +111,7 @@ theorem modStream_ev (s : Streams) (k : Nat) (f : Stream → Stream)
   · exact panic_ev _ _
 
 theorem modStreamW_ev (s : Streams) (k : Nat) (f : Stream → Stream × List String)
-    (h : ∀ st, s.store.get? k = some st → Same st (f st).1) : Ev s (s.modStreamW k f) := by
+    (h : ∀ st, s.store.get? k = some st → Same st (f st).1) : EvB ρ s (s.modStreamW k f) := by
   unfold Streams.modStreamW
   split
   · next st hst =>
@@ -120,11 +121,11 @@ theorem modStreamW_ev (s : Streams) (k : Nat) (f : Stream → Stream × List Str
 
 /-- the same with the side condition stated on `s.stream k` -/
 theorem modStream_ev' (s : Streams) (k : Nat) (f : Stream → Stream)
-    (h : Same (s.stream k) (f (s.stream k))) : Ev s (s.modStream k f) :=
+    (h : Same (s.stream k) (f (s.stream k))) : EvB ρ s (s.modStream k f) :=
   modStream_ev s k f (fun st hst => by rw [stream_of_get? hst] at h; exact h)
 
 theorem modStreamW_ev' (s : Streams) (k : Nat) (f : Stream → Stream × List String)
-    (h : Same (s.stream k) (f (s.stream k)).1) : Ev s (s.modStreamW k f) :=
+    (h : Same (s.stream k) (f (s.stream k)).1) : EvB ρ s (s.modStreamW k f) :=
   modStreamW_ev s k f (fun st hst => by rw [stream_of_get? hst] at h; exact h)
 
 -- ===================================================================== frame facts about single steps
